@@ -1009,6 +1009,18 @@ def gen_c17(rng, tier):
                 ops.append(o)
             base["ops"] = ops
             return {"base": base, "pos": len(ops), "cls": "ctx_width", "seed2": rng.randint(0, 10**9), "all_arms": True}
+    if rng.random() < 0.07:
+        # the very FIRST training call is a partial_fit (online use) and is rejected from inside the training, after the argument
+        # validation: the bandit must still count as never trained, and the next partial_fit must train it from scratch
+        if rng.random() < 0.6:
+            base = gen.gen_ctx_case(rng, nps=["clusters"], max_ops=3, warm=False); cls = "too_few_rows"
+        else:
+            base = gen.gen_ctx_case(rng, max_ops=3, warm=False); cls = rng.choice(["decisions_2d", "ctx_strings", "ctx_width"])
+        ops = list(base["ops"])
+        if ops and ops[0][0] == "fit":
+            ops[0] = ("pfit",) + tuple(ops[0][1:])
+        base["ops"] = ops
+        return {"base": base, "pos": 0, "cls": cls, "seed2": rng.randint(0, 10**9), "force_pfit": True}
     if rng.random() < 0.12:
         # a linear policy with scale=True, arms without observations (omitted from the batches or added later), and a
         # call rejected from inside training: the per-arm scalers must not keep anything of it
@@ -1016,7 +1028,7 @@ def gen_c17(rng, tier):
         pos = rng.randint(1, len(base["ops"])); cls = "ctx_width"
     return {"base": base, "pos": pos, "cls": cls, "seed2": rng.randint(0, 10**9)}
 
-def bad_call(mab, label, inv, base, cls, rng, d, arms, fitted, all_arms=False):
+def bad_call(mab, label, inv, base, cls, rng, d, arms, fitted, all_arms=False, force_pfit=False):
     """performs one invalid call; returns the exception (or None if the call was accepted / not applicable)"""
     contextual = mab.is_contextual
     n = rng.randint(2, 6)
@@ -1030,6 +1042,8 @@ def bad_call(mab, label, inv, base, cls, rng, d, arms, fitted, all_arms=False):
     dd = d or 2
     cx = gen.gen_ctx(rng, n, dd) if contextual else None
     meth = rng.choice([mab.fit, mab.partial_fit])
+    if force_pfit:
+        meth = mab.partial_fit
     try:
         if cls == "len_mismatch":
             meth(ds, rs[:-1], cx)
@@ -1128,7 +1142,7 @@ def run_c17(t):
     d, arms, fitted, nrows = history_dims(base, t["pos"])
     fitted = mab._is_initial_fit
     twin = copy.deepcopy(mab)
-    exc = bad_call(mab, label, inv, base, t["cls"], rng, d, arms, fitted, all_arms=bool(t.get("all_arms")))
+    exc = bad_call(mab, label, inv, base, t["cls"], rng, d, arms, fitted, all_arms=bool(t.get("all_arms")), force_pfit=bool(t.get("force_pfit")))
     if exc == "n/a":
         return True, {"skipped": "class not applicable here"}
     if exc is None:
